@@ -227,7 +227,24 @@ def r6_positions_in_signed_columns_keep_their_width(cx):
         cx.ob = orig
 
 
+def r7_deferred_words_stay_deferred(cx):
+    """a `Word` given for an integer property is a promise ("the position this entry will finally have"), fulfilled once at
+    insertion and again after every sort: whatever turns the caller's values into stored values keeps it a word and never
+    looks at its current value -- a value read while entries are still being added is an insertion rank, not a position."""
+    F = cx.F
+    f = F.one(regex=r"creator::directory_pack::ValueTransformer.*Iterator>::next$")
+    b = F.deep_body(f, only=r"creator::directory_pack::ValueTransformer")
+    words = [st for blk in b.blocks if not blk.get("cleanup") for st in blk["s"] if st["k"] == "assign" and st["rv"]["k"] == "agg"
+             and (st["rv"].get("adt") or "").endswith("directory_pack::value::Value") and st["rv"].get("variant") in ("UnsignedWord", "SignedWord")]
+    if len(words) < 2:
+        raise AnchorLost("ValueTransformer::next: %d constructions of Value::{Unsigned,Signed}Word" % len(words))
+    reads = [t.get("ln") for i, t in b.calls(r"types::delayed::Word::<.*>::get$", r"types::delayed::Bound::<.*>::get$", r"types::delayed::Vow::<.*>::get$")]
+    cx.ob("R7", "R7/ValueTransformer.next/words-are-not-evaluated", not reads, f,
+          "the transformation of the caller's values builds deferred words (%d sites) and never reads the current value of one (reads at lines %s)" % (len(words), reads))
+
+
 RULES = [
+    ("R7", r7_deferred_words_stay_deferred, 1),
     ("R6", r6_positions_in_signed_columns_keep_their_width, 3),
     ("R1", r1_reindex, 7),
     ("R2", r2_index_is_position, 2),
